@@ -185,6 +185,12 @@ TOPLEVEL = [
     ("unknown-identifier", "fn q17(x: Nowhere17) -> u8 { 1u8 }", "let bad = 1u8;"),
     ("unknown-identifier", "struct Q17 { f: Nowhere17 }", "let bad = 1u8;"),
     ("operand-types", "const K17: u8 = 5u16;", "let bad = K17;"),
+    # a constant may refer to constants declared before it only
+    ("unknown-identifier", "const K17: u8 = L17;\nconst L17: u8 = 1u8;", "let bad = K17;"),
+    ("unknown-identifier", "const K17: u8 = L17 + 1u8;\nconst L17: u8 = 1u8;", "let bad = K17 + L17;"),
+    ("unknown-identifier", "const K17: u8 = K17;", "let bad = K17;"),
+    ("unknown-identifier", "const K17: usize = max(M17, 2usize);\nconst M17: usize = 3usize;", "let bad = [w17a; K17];"),
+    ("unknown-identifier", "const K17: u8 = Nowhere17;", "let bad = K17;"),
     ("operand-types", "const K17: bool = 5u8;", "let bad = K17;"),
 ]
 
